@@ -33,8 +33,9 @@ MODULES = {
                       "rogers_tanimoto", "russellrao", "sokal_michener", "sokal_sneath", "haversine", "yule", "cosine",
                       "correlation", "hellinger", "poincare"],
         "sigs": {},
-        "files": ["L_distances.v"],
+        "files": ["L_distances.v", "K_distances.v"],
         "eval": "E_distances.v",
+        "deps": ["thm/T_metrics.v", "thm/T_metrics_bin.v", "thm/T_metrics_real2.v", "prop/P_C12.v", "model/M_metrics.v"],
     },
     "layouts": {"path": "umap/layouts.py", "functions": ["clip", "rdist"], "sigs": {}, "files": ["L_layouts.v"]},
     "umap_sup": {"path": "umap/umap_.py", "functions": ["fast_intersection", "make_epochs_per_sample"],
@@ -129,7 +130,7 @@ def prune(keep=40):
 def theorem_spans(text):
     """[(name, start_offset, end_offset)] of `Theorem name ... Qed.` blocks"""
     out = []
-    for m in re.finditer(r"^Theorem\s+([\w']+)", text, re.M):
+    for m in re.finditer(r"^(?:Theorem|Corollary)\s+([\w']+)", text, re.M):
         e = text.find("Qed.", m.start())
         if e < 0:
             continue
